@@ -239,12 +239,20 @@ func (c *udpMuxedConn) getAddresses() []netip.AddrPort {
 }
 
 func (c *udpMuxedConn) addAddress(addr netip.AddrPort) {
-	c.mu.Lock()
-	c.addresses = append(c.addresses, addr)
-	c.mu.Unlock()
-
-	// Map it on mux
+	// Map it on mux; the mux appends it to this connection's list together
+	// with the map update (see registerConnForAddress).
 	c.params.Mux.registerConnForAddress(c, addr)
+}
+
+// appendAddress adds addr to the list unless it is already there.
+// Called by the mux with addressMapMu held.
+func (c *udpMuxedConn) appendAddress(addr netip.AddrPort) {
+	c.mu.Lock()
+	defer c.mu.Unlock()
+
+	if !slices.Contains(c.addresses, addr) {
+		c.addresses = append(c.addresses, addr)
+	}
 }
 
 func (c *udpMuxedConn) removeAddress(addr netip.AddrPort) {
